@@ -48,6 +48,12 @@ Theorem C12_discipline_ports_and_slots :
   && guarded "pt.closeLock" "pt.Chan" skel_InPort_CloseConnection
   && guarded "pip.closeLock" "pip.RemotePorts" skel_InParamPort_CloseConnection
   && guarded "pip.closeLock" "pip.Chan" skel_InParamPort_CloseConnection
+  (* the feeder goroutine of FromStr / FromInt / FromFloat deletes its entry while the caller still wires and traverses
+     the workflow (finding D20): every access to the map goes through the lock, and the upstream traversal of RunTo
+     reads it through the locked accessor only *)
+  && guarded "pip.closeLock" "pip.RemotePorts" skel_InParamPort_AddRemotePort
+  && guarded "pip.closeLock" "pip.RemotePorts" skel_InParamPort_connectedOutParamPorts
+  && negb (touches "pip.RemotePorts" (SBlock skel_collectUpstreamProcs))
   && skel_eqb skel_Workflow_IncConcurrentTasks [SLock "wf.concurrentTasksMx"; SFor "i < slots" [SSend "wf.concurrentTasks"]; SUnlock "wf.concurrentTasksMx"] = true.
 Proof. vm_compute. reflexivity. Qed.
 
@@ -74,6 +80,13 @@ Theorem C12_tags_refuted_before_repair :
   guarded "ip.lock" ".Tags" [SCall "ip.AuditInfo"; SIf "ai.Tags[k] != """" && ai.Tags[k] != v" [SFail] []; SAssign "ai.Tags[k]"] = false.
 Proof. vm_compute. reflexivity. Qed.
 
+(* ... and the pre-repair shapes of D20 are rejected: AddRemotePort wrote the map without the lock, the upstream traversal
+   ranged over it directly *)
+Theorem C12_feeder_refuted_before_repair :
+  guarded "pip.closeLock" "pip.RemotePorts" [SIf "pip.RemotePorts[pop.Name()] != nil" [SFail] []; SAssign "pip.RemotePorts[pop.Name()]"] = false
+  /\ touches "pip.RemotePorts" (SBlock [SRange "proc.InParamPorts()" [SRange "pip.RemotePorts" [SCall "visit"]]]) = true.
+Proof. split; vm_compute; reflexivity. Qed.
+
 Print Assumptions C12_code_conforms.
 Print Assumptions C12_lockset_sound.
 Print Assumptions C12_discipline_tags.
@@ -81,3 +94,4 @@ Print Assumptions C12_discipline_ports_and_slots.
 Print Assumptions C12_only_accessors.
 Print Assumptions C12_no_writes_to_package_variables.
 Print Assumptions C12_tags_refuted_before_repair.
+Print Assumptions C12_feeder_refuted_before_repair.
